@@ -158,6 +158,18 @@ func ruleLastChunk(c *Ctx, r *Rep, tier string) {
 				}
 			}
 		})
+		// no success return (constant nil error) before lastChunk.Begin was taken: even a
+		// zero-length Read goes through the empty-block skip (index.ChunkReader relies on
+		// Read(p[:0]) stepping to the next block) and refreshes lastChunk
+		allInstrs(fn, func(ins ssa.Instruction) {
+			ret, ok := ins.(*ssa.Return)
+			if !ok || !isNilConst(retValue(ret, 1)) {
+				return
+			}
+			if _, ok := mustPass(entryLoc(fn), func(x ssa.Instruction) bool { return x == ins }, isBegin, nil); !ok {
+				why += fmt.Sprintf(" the success return at %s is reachable without the empty-block skip and without refreshing lastChunk;", c.Pos(ins.Pos()))
+			}
+		})
 		r.Check(why == "", rule, key+"#lastchunk", c.Pos(fn.Pos()), "Begin = txOffset() after the empty-block skip and before the first consume; End = txOffset() after the last consume on every returning path", why)
 	}
 }
